@@ -114,6 +114,8 @@ func profileFor0(name string) *Profile {
 		p.W["restart"] = 3
 		p.Assumptions = []string{"every second run uses the interposed (mode B) node, where a denomination-changing test action is registered under ACTION_SWAP and lone deliveries may get an injected downstream failure", "a run whose fold leaves the range of a 256-bit integer in some entry is not compared further (no implementation can record such a total)"}
 	case "C13":
+		p.ModeBEvery = 3 // every third run on the interposed node: its query audits also run under store faults
+		p.Assumptions = append(p.Assumptions, "every third run uses the interposed (mode B) node; there the listings and a direct lookup are also answered by the interposed keeper's query server while each store call of the query fails once: the answer must be the fault-free one or an error")
 		p.Checkpoint = []string{"queries"}
 		p.W["checkpoint"] = 3
 		p.W["send"], p.W["deliver"] = 40, 40
